@@ -554,7 +554,10 @@ def run(rep, tier):
         clause_digit_text(facts, rep)
         clause_format(facts, rep, tier)
         from .. import narrowing
-        narrowing.check(facts, rep, 'E3.lossless-narrowing', ('ftoa.h',), bounds={('FormatSignificand', 'sig'): 10 ** 17}, min_sites=2)
+        try:
+            narrowing.check(facts, rep, 'E3.lossless-narrowing', ('ftoa.h',), bounds={('FormatSignificand', 'sig'): 10 ** 17}, min_sites=2)
+        except AnalysisBroken as ex:
+            rep.broken.append(str(ex))      # the remaining rules still report
     # the digit-table / digit-character range rules of the double formatter are decided together with the evaluation of
     # the formatting stage on the current source (E5.format): a range proof that cannot be rebuilt for a new spelling
     # of the branches is a note, not a verdict
